@@ -48,7 +48,7 @@ def base_req(rnd, pool):
     ex = ids(rnd, pool)
     al = ids(rnd, pool)
     return {"rp": rnd.choice(["r1", "r1", "r2"]), "user": rnd.choice(["u1", "u2", "u3"]),
-            "algs": [rnd.choice(["ES256", "ES256", "RS256", "EdDSA", "unknown"]) for _ in range(rnd.choice([0, 1, 1, 2, 3]))],
+            "algs": [rnd.choice(["ES256", "ES256", "RS256", "EdDSA", "unknown", "u:RS256"]) for _ in range(rnd.choice([0, 1, 1, 2, 3]))],
             "exclude": ex, "excludeGiven": bool(ex) or rnd.random() < 0.3, "allow": al, "allowGiven": bool(al) or rnd.random() < 0.3,
             "rk": rnd.random() < 0.4, "up": rnd.random() < 0.9, "uv": rnd.random() < 0.5, "pinAuth": rnd.random() < 0.04,
             "hs": rnd.choice(["absent", "absent", "true", "false"]), "prf": dict(NOPRF), "cdh": "h",
@@ -120,7 +120,7 @@ def behaviour(rnd):
             r = base_req(random.Random(1), pool)
             r.update({"rp": rnd.choice(["a1", "a2"]), "handle": rnd.choice(["k16", "k32", "k0"]),
                       "counter": rnd.choice([{"hi": 0, "lo": 0}, {"hi": 0, "lo": 9}, {"hi": 65535, "lo": 65535}]),
-                      "presence": rnd.choice([[], ["UP"], ["UP", "UV"]])})
+                      "presence": rnd.choice([[], ["UP"], ["UP", "UV"], ["UP", "BE", "BS"], ["UV", "BE", "AT"]])})
             e["uv"] = {"kind": "ok", "pres": True, "verif": True, "err": 0}
             if op == "reg":
                 r["counter"], r["presence"] = {"hi": 0, "lo": 0}, []
